@@ -183,12 +183,12 @@ type unit struct {
 // configuration at a reference depth, growth per level), for dealing units to
 // processes.
 func (u unit) weight() float64 {
-	ref, base, growth, ops := 4, 15.6, 7.0, 17.0
+	ref, base, growth, ops := 4, 15.6, 9.0, 17.0
 	switch u.Pass {
 	case "T":
-		ref, base, growth, ops = 8, 15, 2.7, 10
+		ref, base, growth, ops = 8, 15, 2.2, 10
 	case "S":
-		ref, base, growth, ops = 6, 44, 4.5, 11
+		ref, base, growth, ops = 6, 44, 3.7, 11
 	}
 	w := base
 	for d := ref; d < u.Depth; d++ {
@@ -787,8 +787,9 @@ func run(c *lib.Ctx) {
 	var cut []string
 	for i, u := range mine {
 		if !global.IsZero() {
-			// A share of what is left in proportion to the estimated cost of
-			// this unit among the remaining ones.
+			// Three times the share of what is left that the estimated cost
+			// of this unit has among the remaining ones: the estimates are
+			// rough, and a unit must not be cut while time is left overall.
 			left := time.Until(global)
 			if left < 0 {
 				left = 0
@@ -797,7 +798,11 @@ func run(c *lib.Ctx) {
 			for _, v := range mine[i:] {
 				rest += v.weight()
 			}
-			c.Deadline = time.Now().Add(time.Duration(float64(left) * u.weight() / rest))
+			slice := time.Duration(3 * float64(left) * u.weight() / rest)
+			if slice > left {
+				slice = left
+			}
+			c.Deadline = time.Now().Add(slice)
 		}
 		u := u
 		cpu0 := cpuSeconds()
